@@ -289,6 +289,7 @@ def build(x):
                     }''', nth=nth)
         nx.insert_before('self.input_or_feedback();', 'let ghost pre = *self;\n                    ', nth=nth)
     nx.insert_after_stmt('std::mem::swap(&mut self.content, &mut self.feedback_content)', '\n            proof { newc = self.content@; }\n            let ghost pre = *self;')
+    nx.insert_before(re.compile(r'let \w+(?:\s*:\s*[^=;]+)? = self\.wait_update\(\)'), 'let ghost pre = *self;\n            ')
     nx.insert_after_stmt(re.compile(r'let \w+(?:\s*:\s*[^=;]+)? = self\.wait_update\(\)'), '''
             proof {
                 let a = choose|a: Seq<StreamElement<Out>>| #[trigger] appended(pre.input_stash@, self.input_stash@, a);
